@@ -245,6 +245,96 @@ _c17_obl2 = obligations
 def obligations():
     return _c17_obl2() + [Ob('O17.3-receiver-environment', 'the inherent methods of a receiver are looked up in the package that declares its type (dot calls on imported types, incl. generic instances)', ob_receiver_env, ('quick', 'thorough'), 2, {})]
 
+# ----------------------------------------------------------------------------- O17.4 the dyn call form: declaration, construction and use of the trait-object types agree on their Go names
+def replay_dyn_names(trait, method):
+    d = tempfile.mkdtemp(prefix='vf-c17-')
+    try:
+        tshort = trait.split('::')[-1]; inlib = '::' in trait
+        trd = 'trait %s { fn %s(Self) -> int32; }\n' % (tshort, method)
+        main = 'package Main\n' + ('import Lib\n' if inlib else '') + '\n' + ('' if inlib else trd) + 'struct C { v: int32 }\nimpl %s for C { fn %s(self: C) -> int32 { self.v } }\nfn main() -> unit { let d: dyn %s = C { v: 1 }; string_println(int32_to_string(%s::%s(d))) }\n' % (trait, method, trait, trait, method)
+        if inlib:
+            os.makedirs(os.path.join(d, 'Lib')); open(os.path.join(d, 'Lib', 'lib.gom'), 'w').write('package Lib\n\n' + trd)
+        open(os.path.join(d, 'main.gom'), 'w').write(main)
+        p = subprocess.run([build.compiler_bin(), 'run', '--dump-go', os.path.join(d, 'main.gom')], capture_output=True, text=True, timeout=60)
+    finally: shutil.rmtree(d, ignore_errors=True)
+    out = p.stdout + p.stderr
+    if '== Go ==' not in out: raise Unsupported('replay project rejected: ' + out.strip()[:200])
+    go = out.split('== Go ==')[1]
+    declared = set(re.findall(r'^type (\w+) struct', go, re.M)); used = set(re.findall(r'\b(\w*dyn__\w+)\b', go))
+    undeclared = sorted(u for u in used if u not in declared and not re.search(r'^func %s\b' % re.escape(u), go, re.M))
+    fields = {}
+    for m in re.finditer(r'^type (\w*vtable\w*) struct \{\n(.*?)\n\}', go, re.M | re.S): fields[m.group(1)] = set(l.split()[0] for l in m.group(2).splitlines() if l.strip())
+    badkeys = []
+    for m in re.finditer(r'&(\w*vtable\w*)\{\n?(.*?)\}', go, re.S):
+        keys = set(re.findall(r'(\w+):', m.group(2)))
+        if m.group(1) in fields and keys != fields[m.group(1)]: badkeys.append((m.group(1), sorted(keys), sorted(fields[m.group(1)])))
+    ok_ = bool(undeclared) or bool(badkeys)
+    return ok_, 'goml `%s`: %s' % (main.replace('\n', ' | ')[:300], ('Go type names used but not declared: %s' % undeclared) if undeclared else ('vtable literal keys differ from the declared fields: %s' % badkeys) if badkeys else 'all dyn type names declared, vtable literal keys = declared fields')
+
+def ob_dyn_names(r, tier, seed):
+    W = e2.fresh_world(CRATES); E = Env(W); tt = W.tt
+    GOENV = tt.find_adt(['go', 'compile', 'GlobalGoEnv'], 'compiler'); DR = [a for a in tt.by_name['DynRequirements'] if a.crate == 'compiler'][0]
+    GI = tt.find_adt(['goast', 'Item'], 'compiler'); GS = tt.find_adt(['goast', 'Struct'], 'compiler'); GF = tt.find_adt(['goast', 'Field'], 'compiler'); GT = tt.find_adt(['goty', 'GoType'], 'compiler')
+    GFN = tt.find_adt(['goast', 'Fn'], 'compiler'); GE = tt.find_adt(['goast', 'Expr'], 'compiler'); GST = tt.find_adt(['goast', 'Stmt'], 'compiler')
+    from mirsym.engine import PySet
+    traits = ['Show', 'Lib::Show', 'A_B']; methods = ['m', 'select', 'range', 'type', 'go', 'map']
+    r.bounds = 'a trait named one of %s with one method named one of %s (Go keywords that goml does not reserve included), implemented for struct C and used as dyn' % (traits, methods)
+    r.assumptions = ['oracle: the Go struct declared for the trait object by gen_dyn_type_definitions has the name tast_ty_to_go_type gives the type `dyn Tr`; the vtable struct named in its `vtable` field is declared; the struct literal built by gen_dyn_vtable_ctor_fn has that vtable type and exactly the declared field names as keys']
+    def fname(adt, agg, n): return agg.fields[[f[0] for f in adt.variants[0].fields].index(n)]
+    def tyname(t):
+        n = GT.variants[t.idx].name
+        if n == 'TName': return ms.pystr(t.fields[0])
+        if n == 'TPointer': return '*' + tyname(unbox(t.fields[0]))
+        return n
+    def entry(ex):
+        tr = ex.choose([(True, x) for x in traits]); me = ex.choose([(True, x) for x in methods])
+        genv = ex.call('env::GlobalTypeEnv::new_empty', []); genv2 = ex.call('env::GlobalTypeEnv::new_empty', [])
+        E.add_trait(genv, tr, me, E.T('TFunc', PyVec([E.T('TParam', mkstr('Self'))]), mkbox(E.T('TInt32'))))
+        monoenv = ex.call('mono::GlobalMonoEnv::from_genv', [genv2]); liftenv = ex.call('lift::GlobalLiftEnv::from_monoenv', [monoenv])
+        goenv = Agg(GOENV.key, 0, [genv, liftenv])
+        req = Agg(DR.key, 0, [{'traits': PySet([mkstr(tr)], 'index'), 'vtables': PySet([], 'index')}[f[0]] for f in DR.variants[0].fields])
+        h = {0: goenv, 1: req}
+        items = ex.call('go::compile::gen_dyn_type_definitions', [Ref(h, 0), Ref(h, 1)])
+        structs = {}
+        for it in items.items:
+            if GI.variants[it.idx].name != 'Struct': continue
+            st = it.fields[0]; structs[ms.pystr(fname(GS, st, 'name'))] = [(ms.pystr(fname(GF, f_, 'name')), tyname(fname(GF, f_, 'ty'))) for f_ in fname(GS, st, 'fields').items]
+        h2 = {0: E.T('TDyn', mkstr(tr))}
+        use = tyname(ex.call('go::goast::tast_ty_to_go_type', [Ref(h2, 0)]))
+        cty = E.T('TStruct', mkstr('C'))
+        meths = PyVec([Agg('tuple', 0, [mkstr(me), PyVec([]), E.T('TInt32')])])
+        h3 = {0: mkstr(tr), 1: cty, 2: meths}
+        fn = ex.call('go::compile::gen_dyn_vtable_ctor_fn', [Ref(h3, 0), Ref(h3, 1), Ref(h3, 2)])
+        body = fname(GFN, fn, 'body').fields[0].items
+        ret = body[0]; e = ret.fields[0].fields[0]      # Return { expr: Some(&lit) }
+        if GE.variants[e.idx].name == 'UnaryOp': e = unbox(dict(zip([x[0] for x in GE.variants[e.idx].fields], e.fields))['expr'])
+        ef = dict(zip([x[0] for x in GE.variants[e.idx].fields], e.fields))
+        keys = [ms.pystr(k.fields[0]) for k in ef['fields'].items]; lit_ty = tyname(ef['ty'])
+        return tr, me, structs, use, keys, lit_ty
+    res = e2.explore(r, W, entry, [])
+    for p in res:
+        r.cases += 1
+        if p.kind != 'ok':
+            if not any(f.key == 'panic' for f in r.findings): r.findings.append(Finding('panic', 'dyn type generation panics: %s' % str(p.value)[:200], {}, False, 'not replayed'))
+            continue
+        tr, me, structs, use, keys, lit_ty = p.value; r.nontrivial += 1; bad = None
+        dyn_structs = [n for n, fs in structs.items() if [f[0] for f in fs] == ['data', 'vtable']]
+        if use not in structs: bad = ('dyn-type-name-mismatch', 'trait %s: the type `dyn %s` is spelled %s in Go, the declared trait-object structs are %s' % (tr, tr, use, sorted(structs)))
+        else:
+            vt = dict(structs[use]).get('vtable', '').lstrip('*')
+            if vt not in structs: bad = ('vtable-type-undeclared', 'trait %s: the vtable field of %s has type %s, which is not declared (%s)' % (tr, use, vt, sorted(structs)))
+            elif lit_ty != vt: bad = ('vtable-literal-type-mismatch', 'trait %s: the vtable constructor builds a %s, the trait object holds a %s' % (tr, lit_ty, vt))
+            elif sorted(keys) != sorted(f[0] for f in structs[vt]): bad = ('vtable-literal-keys-mismatch', 'trait %s with method %s: the vtable struct declares the fields %s, the constructor literal uses the keys %s' % (tr, me, [f[0] for f in structs[vt]], keys))
+        if bad and not any(f.key == bad[0] for f in r.findings):
+            try: ok_, detail = replay_dyn_names(tr, me)
+            except Exception as e_: ok_, detail = False, 'replay failed: %s' % str(e_)[:200]
+            r.findings.append(Finding(bad[0], bad[1], {'trait': tr, 'method': me}, ok_, detail))
+        elif not bad and len(r.samples) < 3: r.samples.append({'trait': tr, 'method': me, 'dyn struct': use, 'keys': keys})
+
+_c17_obl3 = obligations
+def obligations():
+    return _c17_obl3() + [Ob('O17.4-dyn-names', 'the trait-object struct, its vtable struct and the vtable constructor agree on their Go names (traits of other packages, methods named like Go keywords)', ob_dyn_names, ('quick', 'thorough'), 2, {})]
+
 META = {
     'level': 'other',
     'explanation': 'Bounded facets of C17 decided on the real code. O17.1: Typer::solve (MIR of the current tree, with resolve_type_name, PackageTypeEnv / TraitEnv::get_trait_impl, inst_ty, unify) is run on one Overloaded constraint against real environments of the current package and one dependency whose sets of trait implementations are solver decisions; the result type the call site receives identifies the implementation selected.',
